@@ -128,18 +128,25 @@ Qed.
 Example internal_callers_nonvacuous : internal_callers <> [].
 Proof. vm_compute. discriminate. Qed.
 
-(* capability leaks of the facade outside the interface: exactly the accessors recorded as
-   finding F1 (GetTransactionManager) and the WAL accessor used by the primary *)
+(* capability leaks of the facade outside the interface: only the WAL accessor the primary's
+   replication uses is left (GetTransactionManager hands out a guarded wrapper since /repo
+   b9d5905; its BeginTransaction is a row of the table and falls under guarded_table) *)
 Definition leak_names : list string :=
   map a_name (filter (fun m => is_facade m && a_leaks m) api_table).
 
-Theorem leaks_known : incl leak_names ["GetTransactionManager"%string; "GetWAL"%string].
+Theorem leaks_known : incl leak_names ["GetWAL"%string].
 Proof.
-  assert (H : forallb (fun s => existsb (String.eqb s) ["GetTransactionManager"%string; "GetWAL"%string]) leak_names = true)
+  assert (H : forallb (fun s => existsb (String.eqb s) ["GetWAL"%string]) leak_names = true)
     by (vm_compute; reflexivity).
   intros s Hs. pose proof (proj1 (forallb_forall _ _) H s Hs) as E.
   apply existsb_exists in E. destruct E as (x & Hx & Ex). apply String.eqb_eq in Ex. now subst.
 Qed.
+
+(* the wrapper's begin is in the table, reaches a read-write begin and is guarded *)
+Example wrapper_row_present :
+  existsb (fun m => is_facade m && String.eqb (a_name m) "guardedTxManager.BeginTransaction"
+                    && a_begins_rw m && a_guarded m) api_table = true.
+Proof. vm_compute. reflexivity. Qed.
 
 (* ====================================================================================== *)
 (* Part 2 — behaviour                                                                     *)
@@ -161,20 +168,25 @@ Definition must_reject (n : node) (c : cop) : bool :=
   | _ => false
   end.
 
-(* the actions of a replica in normal operation: any client call through the facade or the
-   service, any applied entry; not the unguarded accessor, not an unknown unguarded mutator,
-   and nobody clears the flag *)
+(* the actions of a replica: any client call through the facade, the accessor or the
+   service, any applied entry, SetReadOnly(true). Excluded: an entry point the model does not
+   know and the fact table calls an unguarded mutator (guarded_table shows there is none), and
+   clearing the flag (only Manager.setEngineReadOnly calls SetReadOnly, at start-up). *)
 Definition safe_act (a : act) : bool :=
   match a with
-  | AClient (CLeakBegin false) => false
   | AClient (CGeneric true false) => false
   | AClient _ => true
   | ARepl _ => true
-  | AMergeOpen => false
-  | AMergePut _ _ => true
-  | AMergeClose => true
   | ASetRO b => b
   end.
+
+Lemma safe_act_exceptions : forall a, safe_act a = false ->
+  a = AClient (CGeneric true false) \/ a = ASetRO false.
+Proof.
+  intros a H. destruct a as [c| |b]; simpl in H; try discriminate.
+  - destruct c; try discriminate. destruct mutates0, guarded; try discriminate. now left.
+  - destruct b; [discriminate | now right].
+Qed.
 
 Lemma existsb_app_false : forall {A} (f : A -> bool) l x,
   existsb f l = false -> f x = false -> existsb f (l ++ [x]) = false.
@@ -249,8 +261,8 @@ Proof.
   - (* SBegin *) unfold begin_tx. rewrite Hro, Hrw. simpl. repeat split; auto; try discriminate.
     unfold rw_open. simpl. now apply existsb_app_false.
   - (* SCompact *) unfold oneshot. rewrite Hro, Hrw. destruct force; simpl; repeat split; auto; discriminate.
-  - (* CLeakBegin *) destruct want_ro; [|discriminate]. unfold begin_tx. simpl. rewrite Hrw.
-    simpl. repeat split; auto; try discriminate. unfold rw_open. simpl. now apply existsb_app_false.
+  - (* CLeakBegin *) unfold begin_tx. rewrite Hro, Hrw. simpl. repeat split; auto; try discriminate.
+    unfold rw_open. simpl. now apply existsb_app_false.
   - (* CGeneric *) destruct mutates0; simpl.
     2: { repeat split; auto; discriminate. }
     destruct guarded; [|discriminate]. simpl. rewrite Hro. simpl. repeat split; auto.
@@ -263,17 +275,13 @@ Theorem ro_step : forall n a, ro_inv n -> safe_act a = true ->
   match a with
   | AClient c => eng (fst x) = eng n /\ (must_reject n c = true -> ro_class (snd x) = true)
   | ARepl r => (eng (fst x), snd x) = apply_eng (eng n) r
-  | AMergePut _ _ => eng (fst x) = eng n /\ snd x = RRoErr
-  | _ => eng (fst x) = eng n
+  | ASetRO _ => eng (fst x) = eng n
   end.
 Proof.
   intros n a Hinv Hs. destruct a; simpl in *.
   - pose proof (client_step n c Hinv Hs) as H. simpl in H. tauto.
   - destruct Hinv as (Hro & Hrw). unfold ro_inv, step_repl. simpl.
     destruct (apply_eng (eng n) r); simpl. auto.
-  - discriminate.
-  - destruct Hinv as (Hro & Hrw). rewrite Hro. simpl. unfold ro_inv. auto.
-  - destruct Hinv as (Hro & Hrw). unfold ro_inv. simpl. auto.
   - destruct b; [|discriminate]. destruct Hinv as (Hro & Hrw). unfold ro_inv. simpl. auto.
 Qed.
 
@@ -322,14 +330,15 @@ Definition v2 : bytes := [2].
 Definition demo_trace : list act :=
   [ARepl (RPutE kA v1); AClient (CPut kA v2); AClient (SBegin false); AClient (CTxPut 0 kB v2);
    ARepl (RPutE kB v1); AClient (CTxCommit 0); AClient (SBatch [(kA, None)]); AClient (SCompact true);
-   ARepl (RDelE kA); ARepl RSync; AClient (CDel kB); AClient (CBatch [(kA, Some v2)])].
+   ARepl (RDelE kA); ARepl RSync; AClient (CDel kB); AClient (CBatch [(kA, Some v2)]);
+   AClient (CLeakBegin false); AClient (CTxPut 1 kA v2); AClient (CTxCommit 1); ARepl (RMergeE kB v2)].
 
 Example ro_trace_nonvacuous :
   let n0 := start rc_replica (init cfg0) in
   ro_inv n0 /\ forallb safe_act demo_trace = true /\
   let x := run_acts n0 demo_trace in
-  node_get (fst x) kA = None /\ node_get (fst x) kB = Some v1 /\
-  snd x = [ROk; RRoErr; ROk; RRoTx; ROk; ROk; RRoTx; RRoTx; ROk; ROk; RRoErr; RRoErr].
+  node_get (fst x) kA = None /\ node_get (fst x) kB = Some v2 /\
+  snd x = [ROk; RRoErr; ROk; RRoTx; ROk; ROk; RRoTx; RRoTx; ROk; ROk; RRoErr; RRoErr; ROk; RRoTx; ROk; ROk].
 Proof. vm_compute. repeat split; reflexivity. Qed.
 
 (* replicated operations still apply: the applier changes the data exactly as the engine's own
@@ -338,14 +347,11 @@ Theorem apply_takes_effect : forall n r,
   step_repl n r = (set_eng n (fst (apply_eng (eng n) r)), snd (apply_eng (eng n) r)).
 Proof. reflexivity. Qed.
 
-(* the three facade calls of a Merge apply, run without interruption on a read-only engine,
-   equal the one-step apply *)
-Theorem expand_uninterrupted : forall n r, ro_inv n ->
-  fst (run_acts n (expand (ro n) r)) = fst (step_repl n r).
-Proof.
-  intros n r (Hro & Hrw). rewrite Hro. destruct r; simpl; try reflexivity.
-  unfold step_repl, set_eng, set_ro. simpl. destruct n; simpl in *. subst. reflexivity.
-Qed.
+(* every Apply is one facade call, so its unfolding into actions is the one-step apply: there
+   is no point inside an Apply at which another thread could observe a cleared flag *)
+Theorem expand_uninterrupted : forall n r b,
+  expand b r = [ARepl r] /\ fst (run_acts n (expand b r)) = fst (step_repl n r).
+Proof. intros. split; reflexivity. Qed.
 
 Example apply_nonvacuous :
   let n0 := start rc_replica (init cfg0) in
@@ -397,34 +403,62 @@ Example node_info_nonvacuous :
   node_info (start (mkRcfg false false RStandalone [] [] true) (init cfg0)) = mkInfo RStandalone [] false.
 Proof. vm_compute. repeat split; reflexivity. Qed.
 
-(* ---------- what the model refutes ---------- *)
+(* ---------- regression documentation: the two defects this check found ---------- *)
+(* Both were repaired in /repo (b9d5905, 574c666); the model above describes the repaired code
+   and ro_trace holds without exceptions for the accessor and for Merge entries. The module
+   below keeps the old behaviour as explicit definitions and replays the two witnesses on it,
+   so that the corpus cases leak-txmanager.case and race-merge.case stay explained. Nothing
+   outside this module depends on it. *)
+Module BeforeFixes.
 
-(* F2 (latent): Apply of a Merge entry on a read-only engine clears the flag around a guarded
-   Put; a client call scheduled inside that window is accepted and changes the data *)
-Theorem merge_window_refuted : exists n c,
-  ro_inv n /\ must_reject n c = true /\
-  let e := expand (ro n) (RMergeE kA v1) in
-  (* the client call runs between the first and the second facade call of Apply *)
-  let t := firstn 1 e ++ [AClient c] ++ skipn 1 e in
-  let x := run_acts n t in
-  nth_error (snd x) 1 = Some ROk /\ node_get (fst x) kB = Some v2 /\
-  node_get (fst (step_repl n (RMergeE kA v1))) kB = None /\ ro (fst x) = true.
-Proof.
-  exists (start rc_replica (init cfg0)), (CPut kB v2).
-  vm_compute. repeat split; reflexivity.
-Qed.
+  (* F1, before b9d5905: GetTransactionManager() returned the bare manager, whose begin does not
+     look at the engine's flag *)
+  Definition begin_unguarded (n : node) (want_ro : bool) : node * res :=
+    if (if want_ro then rw_open n else any_open n) then (n, RBlocked)
+    else (set_txs n (txs n ++ [mkTx (if want_ro then TxRO else TxRW) [] true false]), ROk).
 
-(* F1: the transaction manager accessor hands out read-write transactions on a read-only
-   engine *)
-Theorem leak_refuted : exists n l,
-  ro_inv n /\ repl_only l = [] /\
-  l = [AClient (CLeakBegin false); AClient (CTxPut 0 kA v1); AClient (CTxCommit 0)] /\
-  let x := run_acts n l in
-  snd x = [ROk; ROk; ROk] /\ node_get (fst x) kA = Some v1 /\ node_get n kA = None /\ ro (fst x) = true.
-Proof.
-  exists (start rc_replica (init cfg0)), [AClient (CLeakBegin false); AClient (CTxPut 0 kA v1); AClient (CTxCommit 0)].
-  vm_compute. repeat split; reflexivity.
-Qed.
+  Example leak_witness :
+    let n0 := start rc_replica (init cfg0) in
+    let n1 := fst (begin_unguarded n0 false) in
+    let x := run_acts n1 [AClient (CTxPut 0 kA v1); AClient (CTxCommit 0)] in
+    ro_inv n0 /\ snd x = [ROk; ROk] /\ node_get (fst x) kA = Some v1 /\ node_get n0 kA = None /\
+    ro (fst x) = true.
+  Proof. vm_compute. repeat split; reflexivity. Qed.
+
+  (* the repaired begin refuses the same program *)
+  Example leak_closed :
+    let n0 := start rc_replica (init cfg0) in
+    let x := run_acts n0 [AClient (CLeakBegin false); AClient (CTxPut 0 kA v1); AClient (CTxCommit 0)] in
+    snd x = [ROk; RRoTx; ROk] /\ node_get (fst x) kA = None.
+  Proof. vm_compute. repeat split; reflexivity. Qed.
+
+  (* F2, before 574c666: Apply of a Merge entry on a read-only engine was SetReadOnly(false);
+     engine.Put (the guarded one); SetReadOnly(true) *)
+  Definition expand_old (is_ro : bool) (r : rop) : list act :=
+    match r with
+    | RMergeE k v => if is_ro then [ASetRO false; AClient (CPut k v); ASetRO true] else [ARepl r]
+    | _ => [ARepl r]
+    end.
+
+  Example merge_window_witness :
+    let n0 := start rc_replica (init cfg0) in
+    let e := expand_old (ro n0) (RMergeE kA v1) in
+    (* a client put scheduled between the first and the second facade call of Apply *)
+    let t := firstn 1 e ++ [AClient (CPut kB v2)] ++ skipn 1 e in
+    let x := run_acts n0 t in
+    ro_inv n0 /\ must_reject n0 (CPut kB v2) = true /\
+    nth_error (snd x) 1 = Some ROk /\ node_get (fst x) kB = Some v2 /\
+    node_get (fst (step_repl n0 (RMergeE kA v1))) kB = None /\ ro (fst x) = true.
+  Proof. vm_compute. repeat split; reflexivity. Qed.
+
+  (* the repaired unfolding leaves no such point *)
+  Example merge_window_closed :
+    let n0 := start rc_replica (init cfg0) in
+    let x := run_acts n0 (expand (ro n0) (RMergeE kA v1) ++ [AClient (CPut kB v2)]) in
+    snd x = [ROk; RRoErr] /\ node_get (fst x) kA = Some v1 /\ node_get (fst x) kB = None.
+  Proof. vm_compute. repeat split; reflexivity. Qed.
+
+End BeforeFixes.
 
 (* why ro_inv asks for "no read-write transaction open": one begun before the flag is set
    still commits afterwards (not reachable through cmd/kevo: the flag is set before the
